@@ -442,6 +442,18 @@ fn c06_scenarios(thorough: bool) -> Vec<Scenario> {
     for (name, script) in fault_scripts(1) {
         v.push(mk(&format!("tail9_w2_f1_{name}"), 2, None, 2, script, 9, false, 2));
     }
+    // the hashing queue shrunk to one / two slots (the code's 16 is a tuning constant): the hashing thread
+    // is a full queue behind at every step, also when the stop signal arrives
+    for (cap, w, f) in [(1usize, 1usize, 2usize), (1, 1, 3), (2, 1, 3), (1, 2, 2)] {
+        let mut sc = mk(&format!("cap{cap}_w{w}_f{f}_faultfree"), w, None, w, data(f), 0, false, 2);
+        sc.process_cap = cap;
+        v.push(sc);
+    }
+    for (name, script) in fault_scripts(2).into_iter().filter(|(n, _)| !n.contains('+')) {
+        let mut sc = mk(&format!("cap1_w1_f2_{name}"), 1, None, 1, script, 0, false, 2);
+        sc.process_cap = 1;
+        v.push(sc);
+    }
     // fault-free scripts: termination with every frame exactly once
     for w in 1..=2usize {
         for f in 0..=3usize {
